@@ -18,9 +18,9 @@ import (
 // call sites in the root.
 
 type regionSite struct {
-	owner *ssa.Function   // function containing the instruction
-	chain []ssa.Instruction // call instructions from the root down to owner (empty for the root)
-	viaClosure *ssa.Function // owner is a closure defined in this function of the region (shares its chain)
+	owner      *ssa.Function     // function containing the instruction
+	chain      []ssa.Instruction // call instructions from the root down to owner (empty for the root)
+	viaClosure *ssa.Function     // owner is a closure defined in this function of the region (shares its chain)
 }
 
 type Region struct {
@@ -338,6 +338,51 @@ func (r *Region) EscapesAfter(ri regionInstr, hit func(ssa.Instruction) bool, o 
 		}
 		cur = ri.site.chain[i-1]
 	}
+}
+
+// builtStruct: a struct value built inside the region (in the root or in a constructor helper).
+type builtStruct struct {
+	Site   regionSite
+	Alloc  *ssa.Alloc
+	Vals   map[string][]ssa.Value // field -> stored values (in Site.owner)
+	Fields map[string][]*Term     // the same, in the root's vocabulary
+}
+
+// Built: the allocations of struct type pkg.name made in the region, with their field contents.
+func (r *Region) Built(pkg, name string) []builtStruct {
+	var out []builtStruct
+	r.Instrs(func(site regionSite, in ssa.Instruction) {
+		al, ok := in.(*ssa.Alloc)
+		if !ok || !namedIs(deref(al.Type()), pkg, name) {
+			return
+		}
+		_, bf := r.p.storesTo(al)
+		b := builtStruct{Site: site, Alloc: al, Vals: bf, Fields: map[string][]*Term{}}
+		for f, vs := range bf {
+			for _, v := range vs {
+				b.Fields[f] = append(b.Fields[f], r.Term(site, v))
+			}
+		}
+		out = append(out, b)
+	})
+	return out
+}
+
+// CallerValue: a parameter of a helper of the region is the argument of its call site: returns the
+// argument value together with the site of the calling function (ok=false for anything else).
+func (r *Region) CallerValue(site regionSite, v ssa.Value) (regionSite, ssa.Value, bool) {
+	pa, ok := v.(*ssa.Parameter)
+	if !ok || len(site.chain) == 0 || pa.Parent() != site.owner {
+		return site, v, false
+	}
+	call := site.chain[len(site.chain)-1]
+	cc := callCommon(call)
+	for i, q := range site.owner.Params {
+		if q == pa && i < len(cc.Args) {
+			return regionSite{owner: call.Parent(), chain: site.chain[:len(site.chain)-1]}, cc.Args[i], true
+		}
+	}
+	return site, v, false
 }
 
 // retCase: one way the root produces result #idx — the value (root vocabulary) and the branch
